@@ -305,7 +305,8 @@ def search_floor(ctx):
     import polyply.src.random_walk as rw
     import networkx as nx
     box = np.array([5.0, 5.0, 5.0])
-    for d in [0.02, 0.05, 0.09, 0.0999, 0.1001, 0.2, 0.45, 0.6]:
+    # 0.0: a candidate bit-identical to a positioned residue (two molecules drawing the same start grid point)
+    for d in [0.0, 1e-12, 0.02, 0.05, 0.09, 0.0999, 0.1001, 0.2, 0.45, 0.6]:
         for cross in (False, True):
             q = np.array([0.03, 2.0, 2.0]) if cross else np.array([2.0, 2.0, 2.0])
             p = (q - np.array([d, 0, 0])) % box
@@ -322,7 +323,7 @@ def search_floor(ctx):
                 walker = rw.RandomWalk(0, eng, max_force=max_force, maxdim=box)
                 walker.molecule = g
                 overlap = bool(walker._is_overlap(p, 1))
-                f = abs(lj(sig, 1.0, d))
+                f = abs(lj(sig, 1.0, d)) if d > 0 else float('inf')
                 want = d < 0.1 or (not linked and f > max_force)
                 if overlap != want:
                     ctx.violation('search', f"_is_overlap at distance {d} from a positioned {'graph neighbour' if linked else 'residue'} (size {sig}, force {f:.3f}, "
